@@ -11,6 +11,10 @@ use open_hypergraphs::finite_function::{coequalizer_universal, FiniteFunction};
 use open_hypergraphs::semifinite::{compose_semifinite, SemifiniteArrow, SemifiniteFunction, SemifiniteObject};
 use serde_json::{json, Value};
 
+thread_local! {
+    static OBS_SEMIFINITE_EXTRAS: std::cell::Cell<bool> = const { std::cell::Cell::new(true) };
+}
+
 pub struct C06;
 
 type F = (Vec<usize>, usize); // (table, target)
@@ -295,7 +299,11 @@ impl C06 {
         }
         // the size map's codomain must exceed every size; use max+1
         let sz = ff(sizes.clone(), sizes.iter().cloned().max().map(|m| m + 1).unwrap_or(1));
-        if let Some(h) = call!(ctx, "injections", input, sz.injections(&ff(amap.clone(), at))) {
+        if at != n {
+            // an index map whose codomain is not the number of blocks is outside the statement: outcome recorded only
+            let o = guard(|| sz.injections(&ff(amap.clone(), at)).is_some());
+            ctx.count(match o { Ok(true) => "unjudged:mistyped_injections_Some", Ok(false) => "unjudged:mistyped_injections_None", Err(_) => "unjudged:mistyped_injections_panic" });
+        } else if let Some(h) = call!(ctx, "injections", input, sz.injections(&ff(amap.clone(), at))) {
             ctx.evaluations += 1;
             match (at == n, h) {
                 (true, Some(h)) => {
@@ -419,8 +427,14 @@ impl C06 {
                 && (g.0 == f.0 && g.1 == f.1) == (ff(f.0.clone(), f.1) == ff(g.0.clone(), g.1))
                 && (sf(w.clone()) == sf(w.clone()))
                 && { let mut w2 = w.clone(); w2.push("extra".into()); sf(w.clone()) != sf(w2) };
-            (src_ok && ids_ok && try_ok && init_ok && eq_ok, s_ok, c1, c2, c3, idf)
+            // (the representation of the identity on the label set, TryFrom and initial_object are not part of
+            // the statement: recorded as an observation)
+            OBS_SEMIFINITE_EXTRAS.with(|c| c.set(ids_ok && try_ok && init_ok));
+            (src_ok && eq_ok, s_ok, c1, c2, c3, idf)
         });
+        if res.is_some() {
+            ctx.count(if OBS_SEMIFINITE_EXTRAS.with(|c| c.get()) { "observed:semifinite_identity_tryfrom_initial_as_today" } else { "observed:semifinite_identity_tryfrom_initial_differ" });
+        }
         if let Some((src_ok, s_ok, c1, c2, c3, idf)) = res {
             ctx.check(src_ok && s_ok, "SemifiniteArrow/source,target/value/any", || json!({"input": input}));
             let want1 = if f.1 == g.0.len() { Some((f.0.iter().map(|&i| g.0[i]).collect::<Vec<_>>(), g.1)) } else { None };
